@@ -160,9 +160,12 @@ def extra_phase(ctx):
     if tier != "thorough" and len(cases) > 2500:
         # the two search kernels make up half of the cases: sample those, keep every case of the rarer kernels' DETERMINISTIC
         # sweeps (e.g. as_dense with every pair count 0..33: each residue of the unrolled scatter) and a sample of the rest
-        det = [c for c in cases if c["k"] == "as_dense" and c.get("vals") == [i + 1 for i in range(len(c.get("idx", [])))]]
-        rest = [c for c in cases if c not in det]
-        cases = det + rng.sample(rest, 2500 - len(det))
+        # (a miss taught this: a sampled-away sweep is a blind spot for defects only AddressSanitizer can see)
+        searches = [c for c in cases if c["k"] in ("binary_search", "galloping_search")]
+        inter = [c for c in cases if c["k"] in ("intersect_keep", "intersect_drop", "int_adj", "adjacent")]
+        linear = [c for c in cases if c["k"] not in ("binary_search", "galloping_search", "intersect_keep", "intersect_drop",
+                                                     "int_adj", "adjacent")]
+        cases = linear + inter + rng.sample(searches, min(len(searches), 6000))
     try:
         asan = C.scratch_build(asan=True)
     except C.BuildError as e:
